@@ -523,12 +523,24 @@ class ModelMixin(object):
         if o is None:
             yield self.raise_(st, "AttributeError", "'NoneType' object has no attribute '%s'" % name)
             return
+        if is_num(o) and name == "is_integer":
+            yield st, BuiltinV("num.is_integer", self_val=o)
+            return
         if is_num(o):
             raise Unsupported("attribute %s of a number is not modelled" % name)
         if isinstance(o, BuiltinV) and getattr(o, "self_val", None) is None and o.name in ("sys.stderr", "sys.stdout", "os.path"):
             yield st, BuiltinV("%s.%s" % (o.name, name))
             return
         raise Unsupported("attribute %s of %r" % (name, o))
+
+    def bi_num_is_integer(self, st, args, kw):
+        v = args[0]
+        if isinstance(v, (bool, int)):
+            yield st, True
+        elif isinstance(v, float):
+            yield st, v.is_integer()
+        else:
+            yield st, Sym("bool", z3.IsInt(num_term(v)))
 
     def class_attr_hook(self, st, o, name):
         raise Unsupported("class %s has no attribute %s" % (o.name, name))
